@@ -527,3 +527,48 @@ func literalToJSON(lit string) (any, bool) {
 	}
 	return nil, false
 }
+
+// DeferVariants returns every variant of op in which up to max field sites are
+// wrapped in an `... @defer` inline fragment (label / if: argument by variant
+// index). Sites are the field nodes in pre-order; nested and sibling
+// combinations arise from choosing several sites.
+func DeferVariants(op *Op, max int) []*Op {
+	n := len(op.sites())
+	var out []*Op
+	var rec func(start int, chosen []int)
+	rec = func(start int, chosen []int) {
+		if len(chosen) > 0 {
+			c := op.Clone()
+			ok := true
+			// wrap later sites first so that earlier indices stay valid
+			for k := len(chosen) - 1; k >= 0; k-- {
+				s := c.sites()[chosen[k]]
+				x := (*s.list)[s.idx]
+				if x.Kind != 0 || x.Parent == "" || x.Name == "__typename" {
+					ok = false
+					break
+				}
+				dir := "@defer"
+				switch (chosen[k] + k) % 4 {
+				case 1:
+					dir = fmt.Sprintf("@defer(label: \"L%d\")", chosen[k])
+				case 2:
+					dir = "@defer(if: true)"
+				}
+				(*s.list)[s.idx] = &Node{Kind: 1, Parent: x.Parent, Dirs: dir, Sub: []*Node{x}}
+			}
+			if ok {
+				c.Note = fmt.Sprintf("defer@%v", chosen)
+				out = append(out, c)
+			}
+		}
+		if len(chosen) == max {
+			return
+		}
+		for i := start; i < n; i++ {
+			rec(i+1, append(chosen, i))
+		}
+	}
+	rec(0, nil)
+	return out
+}
